@@ -130,6 +130,24 @@ def twin_blocks(P, rep, rule="SIB.kinds"):
     rep.floor(rule, n, 10, "kind blocks and hand-over sites")
 
 
+def updated_by_section(P, F, key):
+    """'current_section' / 'next_section' if the local `key` is assigned only inside loops over the models of
+    segment_vector[<that section>][...]; 'both' if by both; None if by neither"""
+    hits = set()
+    for x in F.walk():
+        if x.get("k") in ("BinaryOperator", "CXXOperatorCallExpr") and x.get("op") == "=" and astq.is_ref_to(x["c"][0], key):
+            for a in F.ancestors(x):
+                if a.get("k") == "CXXForRangeStmt":
+                    rng = norm.render(P, a["c"][1], nocast=True)
+                    for sname in ("current_section", "next_section"):
+                        if "segment_vector[%s]" % sname in rng.replace(" ", ""):
+                            hits.add(sname)
+                    break
+    if len(hits) == 1:
+        return hits.pop()
+    return "both" if hits else None
+
+
 def interpolation_shape(P, rep, rule="I1"):
     rep.rule(rule, "every use of the section fraction in SubductingPlate/Fault::properties has the form cur + f*(nxt - cur) where nxt is cur "
                    "with current_section replaced by next_section (same segment index, same component); next_section = current_section + 1; "
@@ -170,7 +188,22 @@ def interpolation_shape(P, rep, rule="I1"):
                     A = gp["c"][0] if sc(gp["c"][1]) is par else gp["c"][1]
                     a, b, a2 = R(A), R(o["c"][0]), R(o["c"][1])
                     want_b = a.replace("current_section", "next_section")
-                    if a2 != a:
+                    # running values of the two sections held in locals: told apart by which section's models update them, not by name
+                    twin = None
+                    la, lb = sc(A), sc(o["c"][0])
+                    sa_, sb_ = astq.subscript(la), astq.subscript(lb)
+                    ka = sc(sa_[0]) if sa_ else la
+                    kb = sc(sb_[0]) if sb_ else lb
+                    if a2 == a and ka.get("k") == "DeclRefExpr" and kb.get("k") == "DeclRefExpr" and P.d(ka["r"]).get("storage") == "local" and P.d(kb["r"]).get("storage") == "local":
+                        same_idx = (sa_ is None and sb_ is None) or (sa_ is not None and sb_ is not None and R(sa_[1]) == R(sb_[1]))
+                        if same_idx:
+                            twin = (updated_by_section(P, F, ka["r"]), updated_by_section(P, F, kb["r"]))
+                    if twin is not None and twin[0] is not None:
+                        if twin == ("current_section", "next_section"):
+                            ok = True
+                        else:
+                            why = "the base term is updated by the models of %s and the far term by those of %s" % twin
+                    elif a2 != a:
                         why = "f*(%s - %s) is added to %s" % (b[:40], a2[:40], a[:40])
                     elif "current_section" not in a:
                         why = "the base term %s does not belong to the current section" % a[:50]
